@@ -20,7 +20,9 @@ short streams), (thorough) every 3-cut over the header-critical positions.
 Further harnesses on the same two receivers (each described where it is defined): controller-nicira (Nicira VENDOR
 unpacker installed), controller-live (real handshake inside the stream), switch-reconnect (loss mid-message, reconnect),
 controller-types / switch-types (every message type in every legal length form of a list, e.g. a HELLO with a body),
-controller-raising / switch-raising (the handler of chosen deliveries raises).
+controller-raising / switch-raising (the handler of chosen deliveries raises), controller-stock / switch-stock /
+controller-handshake / controller-task (pox's own handlers and its own task loop in charge), and the context sweep (every
+form behind / in front of k bytes of other traffic: where in the reassembly buffer the unpacker finds the message).
 
 Oracle (reference = the sender's own list of messages and their byte slices):
   after every read call  #delivered <= #messages wholly contained in the bytes received so far   (never early)
@@ -216,6 +218,41 @@ def _sweep_ctrl ():
   T["queue_config_reply_queue_propnone"] = (lambda x: _queue_get_config_reply(x, 1, _packet_queue(1, struct.pack("!HH4x", 0, 8))), True)
   T["stats_reply_flow_allactions"] = (lambda x: S.stats_reply(x, W.OFPST_FLOW, S.flow_stats_entry(_EXACT, _ALL_ACTIONS)), True)
   T["queue_config_reply_queue_minrate"] = (lambda x: _queue_get_config_reply(x, 1, _packet_queue(1) + _packet_queue(2, _qprop_min_rate(500))), True)
+  T.update(_string_forms())
+  return T
+
+# Fixed-width string fields.  A message's length does not depend on what such a field holds, so every content the
+# specification admits is a length form of its own: ofp_phy_port.name[16] ("Null-terminated", nothing more - the bytes
+# behind the terminator are not constrained) in PORT_STATUS and in every port position of a FEATURES_REPLY;
+# ofp_table_stats.name[32] (a char array, not constrained at all); the five ofp_desc_stats strings ("ASCII formatted and
+# padded on the right with null bytes": 5.3.5 - so no bytes behind the terminator there).  Content lattice per field of
+# width w: empty, one character, w-1 characters + terminator (the longest terminated string), a byte >= 0x80, and - where
+# the specification does not demand null padding - a terminated string followed by a non-zero byte right behind the
+# terminator / in the last byte of the field / in every remaining byte (a sender that writes the string into a buffer
+# it did not clear).  libopenflow re-packs a name zero-padded, so the forms with bytes behind the terminator are compared
+# by type and xid like the HELLO bodies; all others by re-packed bytes.
+def _zs_contents (w, padding_free):
+  C = [("empty", b"", True), ("len1", b"p", True), ("lenmax", bytes(0x21 + (i * 7) % 94 for i in range(w - 1)), True),
+       ("latin1", b"\xe9th\xff", True)]
+  if padding_free:
+    C += [("stray_after_nul", b"eth0\0x", False), ("stray_last_byte", b"eth0" + b"\0" * (w - 5) + b"x", False),
+          ("stray_all", b"eth0\0" + b"\xaa" * (w - 5), False)]
+  return C
+
+def _string_forms ():
+  T = {}
+  hw = b"\x02\0\0\0\0\x07"
+  for v, name, strict in _zs_contents(16, True):
+    T["port_status_name_%s" % v] = ((lambda name: lambda x: S.port_status(x, W.OFPPR_ADD, W.phy_port(7, hw, name, state=1, curr=0x82)))(name), strict)
+    for pos in (0, 1):
+      T["features_reply_port%d_name_%s" % (pos, v)] = ((lambda name, pos: lambda x: S.features_reply(
+        x, 0xC02, [W.phy_port(7, hw, name) if i == pos else _PORT(i + 1) for i in range(2)]))(name, pos), strict)
+  for v, name, strict in _zs_contents(32, True):
+    T["stats_reply_table_name_%s" % v] = ((lambda name: lambda x: S.stats_reply(x, W.OFPST_TABLE, _table_stats_entry(0, name) + _table_stats_entry(1)))(name), strict)
+  for k, (field, w) in enumerate((("mfr", 256), ("hw", 256), ("sw", 256), ("serial", 32), ("dp", 256))):
+    for v, text, strict in _zs_contents(w, False):
+      if v == "latin1": continue                  # "ASCII formatted"
+      T["stats_reply_desc_%s_%s" % (field, v)] = ((lambda field, text: lambda x: S.stats_reply(x, W.OFPST_DESC, S.desc_stats_body(**{field: text})))(field, text), strict)
   return T
 
 def _sweep_switch ():
@@ -244,6 +281,7 @@ def _sweep_switch ():
 SWEEP.update({"controller-types": _sweep_ctrl(), "switch-types": _sweep_switch()})
 SWEEP_BEFORE = {"controller-types": "echo_request", "switch-types": "echo_request"}       # 12 bytes
 SWEEP_AFTER = {"controller-types": "barrier_reply", "switch-types": "barrier_request"}    # 8 bytes
+SWEEP_BEFORE["controller-nicira"] = SWEEP_AFTER["controller-nicira"] = "barrier_reply"    # (context sweep only)
 for _s, _base in (("controller-types", CTRL), ("switch-types", SWITCH)):
   ALPHA[_s] = [(n, f) for n, (f, strict) in SWEEP[_s].items()] + [(n, f) for n, f in _base if n not in SWEEP[_s]]
 
@@ -435,11 +473,51 @@ def jumbo (side, n):
   return lambda x: W.packet_out(x, _OUT, _pat(n - 24, 7), in_port=1)
 
 
+# ---------------------------------------------------------------------------------------------------
+# context sweep: WHERE in the reassembly buffer a message lies when it is unpacked, and how much lies behind it
+# ---------------------------------------------------------------------------------------------------
+# Connection.read unpacks IN PLACE: unpackers[type](self.buf, offset) - the unpacker sees the whole buffer, the message
+# starts at `offset` (= the bytes of the complete messages handled before it in the same read call) and is followed by
+# whatever else has arrived.  An unpacker that mixes up a position in the buffer with a position in the message, or the
+# end of the buffer with the end of the message, works for offset 0 / nothing behind and fails otherwise - and how far
+# it is off depends on the sizes.  The type sweep's neighbours are 12 bytes before and 8 behind.  Here every form X of the
+# type sweep is put behind k bytes of earlier traffic (one ECHO_REQUEST of exactly k bytes, "pad_<k>") for k over a
+# lattice that reaches beyond the longest form, and in front of k bytes likewise:  pad_k + X + after,  before + X + pad_k.
+# Which offsets the unpacker then sees is decided by the segmentation: a cut inside the pad -> X at offset k; a cut
+# inside X -> X at offset 0; a cut behind X -> X at offset k with only part of what follows in the buffer.
+CONTEXT_BEFORE = {True: (8, 24, 64, 256, 1200), False: (8, 16, 24, 32, 64, 128, 256, 512, 1200, 2040, 2500)}      # quick / thorough
+CONTEXT_AFTER = {True: (64, 1200), False: (16, 24, 64, 256, 1200, 2500)}
+
+def pad (k):
+  return lambda x: W.echo_request(x, _pat(k - 8, 23))
+
+def is_context (seq):
+  return any(n.startswith("pad_") for n in seq)
+
+def context_sequences (side, name, quick):
+  for k in CONTEXT_BEFORE[quick]: yield ("pad_%d" % k, name, SWEEP_AFTER[side])
+  for k in CONTEXT_AFTER[quick]: yield (SWEEP_BEFORE[side], name, "pad_%d" % k)
+
+def context_cases (lens, deep):
+  """Unsegmented, every 1-cut over P (deep: and at every position inside the swept form, the middle message), the
+  fixed read sizes, every 2-cut over the header-critical positions (deep: over P)."""
+  L = sum(lens)
+  yield ("cuts", ())
+  P = interesting(lens)
+  one = sorted(set(P) | set(range(lens[0], lens[0] + lens[1] + 1))) if deep and len(lens) == 3 else P
+  for p in one:
+    if 1 <= p <= L - 1: yield ("cuts", (p,))
+  for k in CHUNKS:
+    if k < L: yield ("chunk", k)
+  for c in itertools.combinations(P if deep else critical(lens), 2): yield ("cuts", c)
+
+
 def build (side, seq):
   if side == "controller-handshake": return hs_build(seq)
   tab = dict(ALPHA[side])
   for name in seq:
     if name.startswith("jumbo_") and name not in tab: tab[name] = jumbo(side, int(name[6:]))
+    if name.startswith("pad_") and name not in tab: tab[name] = pad(int(name[4:]))
   return [tab[name](0x0C020000 + 0x101 * (i + 1)) for i, name in enumerate(seq)]
 
 
@@ -702,12 +780,16 @@ def _pclass (fed, ends):
 
 
 def _site (tb, src):
-  """basename:function of the innermost frame inside the POX tree."""
+  """basename:function of the innermost frame inside the POX tree; the function by its qualified name
+  (`ofp_stats_reply.unpack`, not `unpack`: every message class has an unpack / pack / show of its own, and two
+  unpackers failing are two defects)."""
   site = None
   root = os.path.join(os.path.realpath(src), "pox") + os.sep
-  for fr in traceback.extract_tb(tb):
-    if os.path.realpath(fr.filename).startswith(root):
-      site = "%s:%s" % (os.path.basename(fr.filename), fr.name)
+  while tb is not None:
+    code = tb.tb_frame.f_code
+    if os.path.realpath(code.co_filename).startswith(root):
+      site = "%s:%s" % (os.path.basename(code.co_filename), getattr(code, "co_qualname", code.co_name).replace(".<locals>", ""))
+    tb = tb.tb_next
   return site or "outside-pox"
 
 
@@ -1783,7 +1865,8 @@ def _run_item (rep, side, seq, threecuts, src, raises):
   first = True
   end = None
   loose = loose_of(side, seq)
-  gen = (lambda l, d: hs_cases(l, d, bool(raises))) if side == "controller-handshake" else \
+  gen = context_cases if is_context(seq) else \
+        (lambda l, d: hs_cases(l, d, bool(raises))) if side == "controller-handshake" else \
         (lambda l, d: sweep_cases(l, d and not raises)) if side.endswith("-stock") else sweep_cases if side.endswith(("-types", "-stock", "-task")) else raising_cases if side.endswith("-raising") else cases_for
   for kind, arg in gen(lens, threecuts):
     # unsegmented, 1-cut and fixed-read-size cases: a fresh receiver each.  2-/3-cut cases: the work item's
@@ -1880,6 +1963,18 @@ def run (cfg):
                  raiselen, ", ".join("%s(%d)" % (n, len(f(1))) for n, f in ALPHA["controller-raising"]),
                  ", ".join("%s(%d)" % (n, len(f(1))) for n, f in ALPHA["switch-raising"]),
                  "" if cfg.quick else ", every 3-cut over the header-critical positions"))
+  rep.rule += (". Among the controller's type-sweep forms: every fixed-width string field (ofp_phy_port.name in PORT_STATUS and in each "
+              "port position of a two-port FEATURES_REPLY, ofp_table_stats.name, the five ofp_desc_stats strings) x content {empty, one "
+              "character, width-1 characters + terminator, bytes >= 0x80 (not for the ASCII description strings)} and - for the name "
+              "fields, which the specification only requires to be null-terminated - a terminated string with a non-zero byte right "
+              "behind the terminator / in the field's last byte / in every remaining byte (compared by type and xid: libopenflow "
+              "re-packs names zero-padded). Context sweep (controller-types, switch-types, controller-nicira): every form X behind "
+              "k bytes of earlier traffic (one ECHO_REQUEST of exactly k bytes), k in %s, followed by a barrier, and in front of "
+              "such a message, k in %s - Connection.read unpacks in place, so X then lies at buffer offset k / 0 and has k / 0..k "
+              "bytes behind it depending on the segmentation: unsegmented, every 1-cut over P%s, the fixed read sizes, every 2-cut "
+              "over %s"
+              % (list(CONTEXT_BEFORE[cfg.quick]), list(CONTEXT_AFTER[cfg.quick]),
+                 "" if cfg.quick else " and at every position inside X", "the header-critical positions" if cfg.quick else "P"))
   rep.rule += (". controller-stock / switch-stock: the receiver keeps pox's OWN handler - of_01.DefaultOpenFlowHandlers as installed "
               "by the completed handshake on a nexus whose listeners only record (ErrorIn.should_log untouched); a fresh "
               "SoftwareSwitch (4 ports) with its rx_message - the recorder records each delivery, then calls the stock handler; "
@@ -1929,6 +2024,7 @@ def run (cfg):
                    raising_handler_max_messages=raiselen,
                    stock_handler_forms=dict(controller=len(SWEEP["controller-stock"]), switch=len(SWEEP["switch-stock"])),
                    handshake_interleaved_messages=cfg.pick(1, 2), task_max_messages=cfg.pick(2, 3),
+                   context_bytes_before=list(CONTEXT_BEFORE[cfg.quick]), context_bytes_after=list(CONTEXT_AFTER[cfg.quick]),
                    stock_handler_raise_sets="none + the swept form's delivery" if cfg.quick else "none + each single + all",
                    raising_handler_sets="single positions + all" if cfg.quick else "every non-empty subset")
   rep.assumptions = ["well-formed OpenFlow 1.0 messages only (malformed input is C10); well-formed includes the legal forms pox "
@@ -1962,7 +2058,11 @@ def run (cfg):
                      "the same read as the features reply are included although a real switch could not produce them",
                      "switch-reconnect: core.callDelayed / callLater and the socket module of pox.lib.ioworker.workers are rebound "
                      "for the duration of a case (virtual timer, scripted sockets) and restored afterwards",
-                     "re-pack equality uses message forms libopenflow re-packs byte-for-byte (exact match, max_len 0)"]
+                     "re-pack equality uses message forms libopenflow re-packs byte-for-byte (exact match, max_len 0)",
+                     "a name field (ofp_phy_port.name, ofp_table_stats.name) with non-zero bytes behind its terminating NUL counts "
+                     "as well-formed (the specification says null-terminated, nothing about the rest of the field); the description "
+                     "strings of ofp_desc_stats do not (5.3.5: padded on the right with null bytes); a name that fills the field "
+                     "without a terminator is not exercised"]
   items = []
   for side in ("controller", "switch"):
     if cfg.only and cfg.only != side: continue
@@ -1991,6 +2091,8 @@ def run (cfg):
     for k in range(1, maxlen + 1):
       for seq in itertools.product(names, repeat=k):
         items.append(("controller-nicira", seq, threecuts, cfg.pox_src))
+    for name in names:        # context sweep with the Nicira unpacker installed
+      for seq in context_sequences("controller-nicira", name, cfg.quick): items.append(("controller-nicira", seq, threecuts, cfg.pox_src))
   # heavy streams first so the pool drains evenly (order only; every item is run)
   items.sort(key=lambda it: -sum(len(m) for m in build(it[0], it[1])))
   # type sweep: every (type, length form) of the side, first in the stream and between two ordinary messages
@@ -2000,6 +2102,7 @@ def run (cfg):
     for name in SWEEP[side]:
       forms = [(name, a), (b, name, a)] + ([] if cfg.quick else [(name, name), (name, name, a)])
       for seq in forms: items.append((side, seq, threecuts, cfg.pox_src))
+      for seq in context_sequences(side, name, cfg.quick): items.append((side, seq, threecuts, cfg.pox_src))
   # stock handlers: every (type, length form) and every value form, alone before and between ordinary messages
   for side in ("controller-stock", "switch-stock"):
     if cfg.only and cfg.only != side: continue
